@@ -41,6 +41,8 @@ def gen_cases(tier, seed):
         for sh in range(shards):
             cases.append({"id": "same-checks-%s-%d" % (fam, sh), "sig": ["same-checks", fam, sh], "kind": "meta", "family": fam, "deep": tier == "thorough",
                           "shard": sh, "shards": shards})
+    for k in range(2 if tier == "quick" else 8):
+        cases.append({"id": "rotation-%d" % k, "sig": ["rotation", k], "kind": "rotation", "k": k})
     for kind in ("foreign-cert", "garbled-cipher", "garbled-key", "empty-cipher", "truncated-encrypted-data"):
         for sr in (0, 1):
             cases.append({"id": "undecryptable-%s-r%d" % (kind, sr), "sig": ["undecryptable", kind, sr], "kind": "undec", "how": kind, "sr": sr})
@@ -292,6 +294,59 @@ def run_undec(case, ctx, viol, counters):
     return "rejected:" + type(exc).__name__
 
 
+def run_rotation(case, ctx, viol, counters):
+    """one long-lived IdP whose SP metadata file changes (encryption key rotated, encryption certificate published later, withdrawn): every
+    response must be encrypted for the certificate the CURRENT metadata holds"""
+    import copy
+    import os
+    from vlib import mdgen
+    from saml2_tophat.config import IdPConfig
+    from saml2_tophat.server import Server
+    rng = random.Random("%s/%s" % (ctx.seed, case["id"]))
+    path = os.path.join(ctx.scratch, "rotation-%s.xml" % case["k"])
+    B_POST = "urn:oasis:names:tc:SAML:2.0:bindings:HTTP-POST"
+
+    def write(enc_key):
+        keys = [("signing", 1)] + ([("encryption", enc_key)] if enc_key is not None else [])
+        with open(path, "w") as f:
+            f.write(mdgen.entity({"eid": fed.SP_EID, "sp": {"keys": keys, "acs": [(B_POST, fed.ACS_POST, 1, True)]}}))
+
+    plan = [rng.choice([None, 2]), rng.choice([10, 2, 3]), rng.choice([None, 3, 10]), 2]
+    write(plan[0])
+    idc = fed.idp_conf()
+    idc["metadata"] = {"local": [path]}
+    idp = Server(config=IdPConfig().load(copy.deepcopy(idc)))
+    for g, enc_key in enumerate(plan):
+        if g:
+            write(enc_key)
+            idp.metadata.load("local", path)
+        tag = "%06x" % rng.randrange(16 ** 6)
+        ident = {"givenName": ["%s-gn-%s" % (MARK, tag)], "mail": ["%s-%s@example.org" % (MARK, tag)]}
+        try:
+            xml = fed.issue(idp, ident, sign_response=False, sign_assertion=bool(g % 2), encrypt_assertion=True)
+        except Exception as exc:
+            counters["idp_raised:" + type(exc).__name__] = counters.get("idp_raised:" + type(exc).__name__, 0) + 1
+            continue
+        counters["rotation_steps"] = counters.get("rotation_steps", 0) + 1
+        desc = "metadata history %s, step %d (current encryption certificate %s)" % (
+            ["k%02d" % p if p is not None else "none" for p in plan[:g + 1]], g, "k%02d" % enc_key if enc_key is not None else "none")
+        leaked = MARK in xml
+        if enc_key is None:
+            continue          # no certificate, nothing was promised
+        if leaked:
+            viol.append({"key": "C17/encrypted-assertion-content-in-clear-after-metadata-change", "what": desc + ": identity markers visible in the response"})
+            continue
+        opened = []
+        for k in range(12):
+            rc, err, out = xk.decrypt(xml, fed.key(k)[0])
+            if rc == 0 and out and MARK.encode() in out:
+                opened.append(k)
+        if opened != [enc_key]:
+            viol.append({"key": "C17/encrypted-for-a-certificate-the-metadata-no-longer-holds", "what": desc + ": decryptable with %s" % ["k%02d" % k for k in opened]})
+    os.unlink(path)
+    return "rotation"
+
+
 def run_case(case, ctx):
     viol, counters, sigs = [], {}, []
     nontrivial = True
@@ -300,6 +355,8 @@ def run_case(case, ctx):
     elif case["kind"] == "meta":
         run_meta(case, ctx, viol, counters, sigs)
         outcome = "pairs"
+    elif case["kind"] == "rotation":
+        outcome = run_rotation(case, ctx, viol, counters)
     else:
         outcome = run_undec(case, ctx, viol, counters)
     uniq = {}
@@ -318,7 +375,7 @@ def finalize(cases, results, tier, extras):
         for k, v in r.get("counters", {}).items():
             tot[k] = tot.get(k, 0) + v
     inc = []
-    for need in ("encrypted_responses", "pairs", "plain_rejected", "undecryptable_deliveries", "read_back"):
+    for need in ("encrypted_responses", "pairs", "plain_rejected", "undecryptable_deliveries", "read_back", "rotation_steps"):
         if not tot.get(need):
             inc.append("counter %s is zero" % need)
     return {"inconclusive": inc, "coverage": {"observations": {k: v for k, v in tot.items() if ":" in k or k.startswith("semantic")}}}
